@@ -748,6 +748,8 @@ def correspondence(ctx, res, histories, limit):
     res.extra['model_histories_not_expressible'] = skipped
     if not chosen:
         return
+    # the model must run even when a proof is broken (model/ holds no proofs): make sure its .vo files exist
+    fw.coq_make(['model/Index.vo', 'model/IndexConc.vo'], jobs=4, timeout=900)
     checks = [t for _, t in chosen]
     bad, errors = fw.coq_mismatches('c12', COQ_IMPORTS, '', checks, chunk=60)
     res.traces_validated += len(checks) - len(bad)
@@ -1291,7 +1293,7 @@ def run(ctx):
     stats = {}
     nhist, nsched = (250, 60) if ctx.quick else (2500, 600)
     histories = sequential(ctx, res, nhist, stats)
-    correspondence(ctx, res, histories, 7000 if ctx.quick else 30000)
+    correspondence(ctx, res, histories, 7000 if ctx.quick else 100000)
     concurrent(ctx, res, nsched, stats)
     machine_correspondence(ctx, res, 40 if ctx.quick else 400)
     runs = []
